@@ -236,6 +236,9 @@ func replay(t *testing.T, res *engine.Result, rp replayT) {
 	case "c":
 		replayC(t, res, rp)
 		return
+	case "d":
+		replayD(t, res, rp)
+		return
 	default:
 		t.Fatalf("unknown part %q", rp.Part)
 	}
